@@ -32,4 +32,13 @@ HARNESSES = [MAIN,
          stubs=["test_archived_file_crc / extract_archived_file: arbitrary verdict (their own harnesses: exit.m3, verdict.*)", "lha_filter_next_file: serves n members",
                 "reader / stream constructors, fopen/fclose, list commands, printing: no-op stubs"])
     for w in ("t", "x")
+] + [
+    dict(name="exit.real.%s" % w.replace("q2", "Q"), src="C07/exitmany.c", defines=["NM=3", "REAL_MEMBERS", 'CMDWORD="%s"' % w, "printf=verif_printf_noop"],
+         unwind=8, unwindset={"test_file_crc.0": 5, "extract_archive.0": 5, "make_parent_directories.0": 3, "make_parent_directories.1": 3, "make_parent_directories.2": 3, "strlen.0": 3, "strcat.0": 3, "strcat.1": 3, "strchr.0": 3},
+         timeout=300, mem_gb=4, optional_witnesses=True,
+         units=["src/main.c:main,do_command,parse_command_line,parse_options", "src/extract.c:test_file_crc,extract_archive,test_archived_file_crc,extract_archived_file"],
+         bounds="command word '%s', 0..3 members, the reader's verdict per member arbitrary, progress callback invoked or not" % w,
+         stubs=["lha_reader_check / lha_reader_extract: arbitrary verdict, callback invoked or not", "lha_filter_next_file: serves n members", "arch layer: nothing exists, mkdir succeeds",
+                "reader / stream constructors, fopen/fclose, list commands, printing: no-op stubs"])
+    for w in ("t", "tq2", "x", "xq2")
 ]
